@@ -32,6 +32,7 @@ type Analysis struct {
 	B         *BDD
 	ctxs      map[string]*FuncCtx
 	Inline    func(callee *ssa.Function) bool
+	Opaque    func(callee *ssa.Function) bool // never analysed as part of its caller, even when side-effect free
 	MaxDepth  int
 	Atoms     map[string]*AtomInfo
 	pureMemo  map[*ssa.Function]bool
@@ -1636,6 +1637,7 @@ type retAlt struct {
 	v     ssa.Value
 	under *ssa.BasicBlock
 	neg   bool
+	none  []*ssa.BasicBlock // (with under == nil) the alternative holds when none of these blocks ran
 }
 
 // retAlts: component idx of what the Return hands back: result idx of the tuple for idx >= 0; for idx < 0 the field
@@ -1666,6 +1668,7 @@ func retAlts(r *ssa.Return, idx int) []retAlt {
 		return nil
 	}
 	var store *ssa.Store
+	var stores []*ssa.Store
 	n := 0
 	for _, rf := range *al.Referrers() {
 		switch u := rf.(type) {
@@ -1676,6 +1679,7 @@ func retAlts(r *ssa.Return, idx int) []retAlt {
 			for _, r2 := range *u.Referrers() {
 				if s, ok := r2.(*ssa.Store); ok && s.Addr == ssa.Value(u) {
 					store = s
+					stores = append(stores, s)
 					n++
 				} else if _, isLoad := r2.(*ssa.UnOp); !isLoad {
 					if _, isDbg := r2.(*ssa.DebugRef); !isDbg {
@@ -1709,6 +1713,25 @@ func retAlts(r *ssa.Return, idx int) []retAlt {
 		}
 		return []retAlt{{v: store.Val, under: store.Block()}, {v: zero, under: store.Block(), neg: true}}
 	}
+	// assigned in several branches that exclude each other (res.err = err in two arms): each assignment when its block
+	// ran, the zero value when none did. Only when no assignment can follow another and none sits in a loop.
+	if zero != nil && n >= 2 {
+		var alts []retAlt
+		var blocks []*ssa.BasicBlock
+		for i, s1 := range stores {
+			if blockReaches(s1.Block(), s1.Block()) || !(s1.Block() == r.Block() || blockReaches(s1.Block(), r.Block())) {
+				return nil
+			}
+			for j, s2 := range stores {
+				if i != j && (s1.Block() == s2.Block() || blockReaches(s1.Block(), s2.Block())) {
+					return nil
+				}
+			}
+			alts = append(alts, retAlt{v: s1.Val, under: s1.Block()})
+			blocks = append(blocks, s1.Block())
+		}
+		return append(alts, retAlt{v: zero, none: blocks})
+	}
 	return nil
 }
 
@@ -1723,6 +1746,13 @@ func retComponent(r *ssa.Return, idx int) ssa.Value {
 
 // altCond: the condition that selects the alternative, in this context.
 func (fc *FuncCtx) altCond(a retAlt) *bddNode {
+	if a.under == nil && len(a.none) > 0 {
+		c := fc.A.B.True
+		for _, b := range a.none {
+			c = fc.A.B.And(c, fc.A.B.Not(fc.Cond(b)))
+		}
+		return c
+	}
 	if a.under == nil {
 		return fc.A.B.True
 	}
